@@ -131,6 +131,16 @@ func (w *World) SetBalance(ch string, kind balance.BalanceType, addr string, tok
 	}
 }
 
+// GetBalance reads one committed balance entry.
+func (w *World) GetBalance(ch string, kind balance.BalanceType, addr string, token string) *big.Int {
+	stub := w.Peer.newStub(w.Peer.Channels[ch], "peek", nil, nil)
+	v, err := balance.Get(stub, kind, addr, token)
+	if err != nil || v == nil {
+		return big.NewInt(0)
+	}
+	return v
+}
+
 // TokenMeta decodes the tokenMetadata record.
 func (w *World) TokenMeta(ch string) *fpb.Token {
 	t := &fpb.Token{}
